@@ -264,4 +264,7 @@ def run(ctx, res):
     res.require_min("R-WRITEALL", 4)
     res.require_min("LOOP-PROGRESS", 1)
     res.require_min("T-CONST", 4)
+    from ..filecreate import rule_file_create
+    res.guard(rule_file_create, prog, res, ("TRUNC", "LOCK-FIRST"))
+    res.require_min("R-CREATE", 2)
     res.require_min("R-URI-STRIP", 1)
